@@ -175,7 +175,8 @@ class Source:
             if not m:
                 continue
             norm = normalize_impl_header(m.group(1))
-            if norm == want:
+            exact = re.sub(r'\s+', ' ', m.group(1)).strip()
+            if norm == want or exact == want:
                 return hs, bo, bc
         raise Lost(f'{self.path}: impl `{target}` not found')
 
